@@ -12,9 +12,9 @@ import (
 
 func TestC04(t *testing.T) {
 	mon.Main(t, mon.Check{
-		ID:    "C04",
-		Level: "exploration",
-		Rule: "real noise Machines over an in-memory duplex with a man in the middle on both directions. For each of the 36 (clientMin<=clientMax, serverMin<=serverMax) version-range combinations x {XX, KK} x auth payload sizes {0,1,4,498,499,500,65535,65536,200000(quick)/3 MiB(thorough)}: (U) the untampered handshake; (V) every substitution of the version byte of each act by 0..3, all 4^3 (XX) / 4^2 (KK) combinations across the acts; (B) single-bit flips of every handshake byte (thorough: all 8 bits of every byte for payloads <= 600 bytes, first/last 64 bytes of each act plus a PRNG sample for larger ones; quick: one PRNG-chosen bit of every byte, for payload sizes 0, 498 and 499). Oracle per trial: NOT(both DoHandshake calls returned nil AND the views differ), where a view = negotiated version, complementary send/recv traffic keys, the peer's true static key, the initiator's received payload equal to the responder's auth payload, and the ConnData callbacks consistent with it (remote key stored iff version >= 2). Control: equal version ranges must complete untampered. Non-trivial = a trial in which at least one side completed; distinct = (pattern, ranges, payload size, tampering).",
+		ID:          "C04",
+		Level:       "exploration",
+		Rule:        "real noise Machines over an in-memory duplex with a man in the middle on both directions. For each of the 36 (clientMin<=clientMax, serverMin<=serverMax) version-range combinations x {XX, KK} x auth payload sizes {0,1,4,498,499,500,65535,65536,200000(quick)/3 MiB(thorough)}: (U) the untampered handshake; (V) every substitution of the version byte of each act by 0..3, all 4^3 (XX) / 4^2 (KK) combinations across the acts; (B) single-bit flips of every handshake byte (thorough: all 8 bits of every byte for payloads <= 600 bytes, first/last 64 bytes of each act plus a PRNG sample for larger ones; quick: one PRNG-chosen bit of every byte, for payload sizes 0, 498 and 499). Oracle per trial: NOT(both DoHandshake calls returned nil AND the views differ), where a view = negotiated version, complementary send/recv traffic keys, the peer's true static key, the initiator's received payload equal to the responder's auth payload, and the ConnData callbacks consistent with it (remote key stored iff version >= 2). Control: equal version ranges must complete untampered. Non-trivial = a trial in which at least one side completed; distinct = (pattern, ranges, payload size, tampering).",
 		Assumptions: []string{"which range combinations complete is not judged (except equal ranges)"},
 		NCases: func(tier string) int {
 			return 36 * 2 * 9
